@@ -103,6 +103,8 @@ class Closure:
 
 def freeze(v, _depth=0):
     """Immutable, printable form of a value."""
+    if isinstance(v, ExitStackVal):
+        return ('exitstack', v.oid)
     if isinstance(v, ListVal):
         return ('list',) + tuple(freeze(e, _depth + 1) for e in v.elts)
     if isinstance(v, DictVal):
@@ -266,6 +268,18 @@ class _Break(_Signal):
 
 class _Continue(_Signal):
     pass
+
+
+class ExitStackVal:
+    """contextlib.ExitStack(): callbacks registered while the with-block runs, called in reverse order when it is left."""
+    __slots__ = ('callbacks', 'oid')
+
+    def __init__(self, oid):
+        self.callbacks = []
+        self.oid = oid
+
+    def __repr__(self):
+        return 'ExitStack#%d' % self.oid
 
 
 class IterVal(ListVal):
@@ -828,6 +842,33 @@ class SymExec:
             item = st.items[0]
             cm = self.ev(item.context_expr, fr)
             fcm = freeze(cm)
+            if isinstance(fcm, tuple) and fcm[:1] == ('call',) and fcm[2] == ('ref', 'ext', 'contextlib.ExitStack') and not fcm[3]:
+                # with ExitStack() as stack: ... stack.callback(f, *a) ...   ==   try: ... finally: f(*a) (last registered first)
+                es = ExitStackVal(self.fresh())
+                self.emit('with_enter', st, cm=cm)
+
+                def unwind():
+                    self.ctx.append(('finally', st))
+                    try:
+                        for fn_, a_, kw_, nd_ in reversed(es.callbacks):
+                            self.call(fn_, list(a_), list(kw_), nd_, fr)
+                    finally:
+                        self.ctx.pop()
+                self.ctx.append(('with', fcm, st))
+                self.ctx.append(('try', st, ()))
+                try:
+                    try:
+                        if item.optional_vars is not None:
+                            self.assign(item.optional_vars, es, fr, st)
+                        self.exec_block(st.body, fr)
+                    finally:
+                        self.ctx.pop()
+                        self.ctx.pop()
+                except _Signal:
+                    unwind()
+                    raise
+                unwind()
+                return
             cmcls = fcm[1] if isinstance(fcm, tuple) and fcm and fcm[0] == 'new' else None
             enter_q = self.facts.find_method(cmcls, '__enter__') if cmcls else None
             exit_q = self.facts.find_method(cmcls, '__exit__') if cmcls else None
@@ -1197,6 +1238,10 @@ class SymExec:
                 obj.result_set = True
                 self.emit('prod_result', node, value=v)
                 return
+            m_ = self._singleton_method(obj, '__setitem__')
+            if m_ is not None:
+                self._inline_call(m_, [obj, idx, v], [], node, ('attr', freeze(obj), '__setitem__'))
+                return
             if isinstance(obj, ListVal) and obj.concrete() and is_const(idx) and isinstance(idx[1], int) \
                     and -len(obj.elts) <= idx[1] < len(obj.elts):
                 obj.elts[idx[1]] = v
@@ -1333,7 +1378,23 @@ class SymExec:
         i = self.ev(e.slice, fr)
         return self.subscript(b, i, e, fr)
 
+    def _singleton_method(self, obj, name) -> Optional[str]:
+        """The package method that implements an operator on a module-level singleton of a package class."""
+        fo = freeze(obj) if not isinstance(obj, (ProdVal, Closure)) else None
+        if not (isinstance(fo, tuple) and fo[:2] == ('ref', 'modvar')) or not self.inline:
+            return None
+        cq = self._singleton_class(fo[2])
+        if not cq:
+            return None
+        mq = self.facts.find_method(cq, name)
+        if mq and mq in self.facts.functions and mq not in self.stack and len(self.stack) < MAX_INLINE:
+            return mq
+        return None
+
     def subscript(self, b, i, node, fr):
+        m_ = self._singleton_method(b, '__getitem__')
+        if m_ is not None:
+            return self._inline_call(m_, [b, i], [], node, ('attr', freeze(b), '__getitem__'))
         if isinstance(b, ProdVal):
             if is_const(i) and isinstance(i[1], int):
                 k = i[1]
@@ -1619,6 +1680,14 @@ class SymExec:
         return result
 
     def compare(self, op, l, r, node):
+        if op in ('in', 'not in'):
+            m_ = self._singleton_method(r, '__contains__')
+            if m_ is not None:
+                res = self._inline_call(m_, [r, l], [], node, ('attr', freeze(r), '__contains__'))
+                if op == 'in':
+                    return res
+                fres = freeze(res)
+                return ('const', not fres[1]) if is_const(fres) else ('not', fres)
         t = self._compare(op, l, r, node)
         # negative operators are represented as the negation of the positive one, so that
         # `x is None` and `x is not None` (== / !=, in / not in) share one assumption per path
@@ -1863,7 +1932,9 @@ class SymExec:
                 and self.package_generator(e.value.generators[0].iter, fr) is not None:
             self.exec_block(self._genexp_as_loop(e.value, e), fr)
             return ('const', None)
-        if self.package_generator(e.value, fr) is not None:
+        two_arg_iter = isinstance(e.value, ast.Call) and isinstance(e.value.func, ast.Name) and e.value.func.id == 'iter' \
+            and len(e.value.args) == 2 and not e.value.keywords and self.facts.resolve_name(fr.module, 'iter')[0] == 'builtin'
+        if two_arg_iter or self.package_generator(e.value, fr) is not None:
             # yield from gen(...)  ==  for v in gen(...): yield v
             tmp = ast.Name(id='__yield_from_item', ctx=ast.Store())
             loop = ast.For(target=tmp, iter=e.value, body=[ast.Expr(value=ast.Yield(value=ast.Name(id='__yield_from_item', ctx=ast.Load())))],
@@ -1886,6 +1957,8 @@ class SymExec:
             return None
         if t[0] in ('new', 'obj'):
             return t[1]
+        if t[0] == 'ref' and t[1] == 'modvar':
+            return self._singleton_class(t[2])
         if t[0] == 'param':
             # ('param', n) always names a parameter of the function under analysis, wherever the term has travelled
             for f0 in (getattr(self, 'top_frame', None), fr):
@@ -1917,7 +1990,60 @@ class SymExec:
                     if n == t[2] and ann is not None:
                         r = self.facts.resolve_expr(self.facts.cls(q).module, ann)
                         return r[1] if r[0] == 'cls' else None
+                return self._attr_type_from_stores(bq, t[2])
         return None
+
+    def _singleton_class(self, dotted: str) -> Optional[str]:
+        """Package class of a module-level name bound once to `ClassName(...)` (a module-level singleton / null object)."""
+        mod, _, var = dotted.rpartition('.')
+        m = self.facts.modules.get(mod)
+        if m is None or var not in m.assigns or len(m.assigns[var]) != 1 or not isinstance(m.assigns[var][0], ast.Call):
+            return None
+        if any(isinstance(n, ast.Global) and var in n.names for n in ast.walk(m.tree)):
+            return None
+        r = self.facts.resolve_expr(m, m.assigns[var][0].func)
+        return r[1] if r[0] == 'cls' else None
+
+    def _attr_type_from_stores(self, cq: str, attr: str) -> Optional[str]:
+        """Class of `self.<attr>` when every store to it in the class's methods is either a constructor call of one package
+        class or a parameter annotated with it."""
+        cache = self.facts.__dict__.setdefault('_attr_type_cache', {})
+        key = (cq, attr)
+        if key in cache:
+            return cache[key]
+        cache[key] = None
+        found = set()
+        for q in self.facts.mro(cq):
+            ci = self.facts.classes.get(q)
+            if ci is None:
+                continue
+            for mn, mnode in ci.methods.items():
+                sp = mnode.args.args[0].arg if mnode.args.args else None
+                anns = {a.arg: a.annotation for a in mnode.args.args + mnode.args.kwonlyargs if a.annotation is not None}
+                for n in ast.walk(mnode):
+                    if not isinstance(n, (ast.Assign, ast.AnnAssign)):
+                        continue
+                    tgts = n.targets if isinstance(n, ast.Assign) else [n.target]
+                    for tg in tgts:
+                        if isinstance(tg, ast.Attribute) and tg.attr == attr and isinstance(tg.value, ast.Name) and tg.value.id == sp:
+                            v = n.value
+                            r = None
+                            if isinstance(v, ast.IfExp):
+                                v = v.orelse if isinstance(v.orelse, ast.Name) else v.body
+                            if isinstance(v, ast.Call):
+                                r = self.facts.resolve_expr(ci.module, v.func)
+                            elif isinstance(v, ast.Name) and v.id in anns:
+                                a_ = anns[v.id]
+                                if isinstance(a_, ast.Constant) and isinstance(a_.value, str):
+                                    try:
+                                        a_ = ast.parse(a_.value, mode='eval').body
+                                    except SyntaxError:
+                                        a_ = None
+                                r = self.facts.resolve_expr(ci.module, a_) if a_ is not None else None
+                            found.add(r[1] if r and r[0] == 'cls' else None)
+        if len(found) == 1 and None not in found:
+            cache[key] = next(iter(found))
+        return cache[key]
 
     def _is_self(self, name, fr: Frame) -> bool:
         f: Optional[Frame] = fr
@@ -2391,6 +2517,15 @@ _orig_ex_Call = SymExec.ex_Call
 
 
 def _ex_Call(self: SymExec, e, fr):
+    if isinstance(e.func, ast.Attribute) and e.func.attr in ('callback', 'push', 'enter_context', 'close', 'pop_all'):
+        recv0 = self.ev(e.func.value, fr)
+        if isinstance(recv0, ExitStackVal):
+            if e.func.attr != 'callback' or not e.args:
+                raise Unrecognised('ExitStack.%s is not modelled (%s)' % (e.func.attr, norm(e)))
+            args0 = self._elts(e.args, fr)
+            kw0 = [(kw.arg, self.ev(kw.value, fr)) for kw in e.keywords]
+            recv0.callbacks.append((args0[0], args0[1:], kw0, e))
+            return args0[0]
     if isinstance(e.func, ast.Attribute) and e.func.attr == 'update' and (len(e.args) + len(e.keywords)) >= 1:
         recv = self.ev(e.func.value, fr)
         if isinstance(recv, DictVal):
